@@ -227,6 +227,7 @@ def replay(ctx, o):
         return bad, 'native uniform(%r,%r): pdf(%r)=%r cdf=%r cdf(%r)=%r' % (lo, hi, x, pdf, c1, max(x, x2), c2)
     if key.startswith('C07/exponential'):
         x, mean = fl(m['x']), abs(fl(m['mean'])) or 1.0; h = 1e-6 * mean
+        if key == 'C07/exponential/derivative' and x <= h: x = 0.7 * mean      # the derivative is compared away from the kink at 0 (the solver's model may sit on it)
         pdf = nsf(ctx, 52, x, mean)['ret']; d = (nsf(ctx, 53, x + h, mean)['ret'] - nsf(ctx, 53, x - h, mean)['ret']) / (2 * h); c = nsf(ctx, 53, x, mean)['ret']
         bad = (x > h and abs(d - pdf) > 1e-5 * max(pdf, 1e-300)) or pdf < 0 or not (0 <= c <= 1) or (x < 0 and (pdf != 0 or c != 0))
         return bad, 'native exponential(mean %r) at %r: pdf %r, central difference of the CDF %r, CDF %r' % (mean, x, pdf, d, c)
